@@ -11,7 +11,7 @@ use std::sync::atomic::{AtomicBool, AtomicUsize, Ordering};
 use std::sync::{Arc, Mutex};
 use std::time::Duration;
 use surf_n_term::verif;
-use surf_n_term::{Cell, Error, Face, Position, SurfaceMut, SystemTerminal, Terminal, TerminalAction};
+use surf_n_term::{Cell, Error, Face, Image, Position, Size, SurfaceMut, SurfaceOwned, SystemTerminal, Terminal, TerminalAction, RGBA};
 
 fn open_pty() -> (std::fs::File, String) {
     unsafe {
@@ -26,7 +26,7 @@ fn open_pty() -> (std::fs::File, String) {
     }
 }
 
-fn session(seed: u64) -> serde_json::Value {
+fn session(seed: u64, image: bool) -> serde_json::Value {
     let drops = Arc::new(AtomicUsize::new(0));
     let d2 = drops.clone();
     verif::install(Some(Box::new(move |_seq, body| {
@@ -92,12 +92,19 @@ fn session(seed: u64) -> serde_json::Value {
     let payload = 600_000 + rnd.below(600_000);
     let res = guarded(|| {
         let mut term = SystemTerminal::open(&slave).expect("open terminal on pty");
-        // strand a payload (bytes >= 0x80, never part of a marker) in the unread pty
-        stall.store(true, Ordering::SeqCst);
-        term.write_all(&vec![0xA5u8; payload]).unwrap();
-        term.flush().unwrap();
+        let img = Image::from(SurfaceOwned::new_with(Size::new(20, 20), |p| RGBA::new(200, (p.row * 10) as u8, (p.col * 10) as u8, 255)));
+        if !image {
+            // strand a payload (bytes >= 0x80, never part of a marker) in the unread pty
+            stall.store(true, Ordering::SeqCst);
+            term.write_all(&vec![0xA5u8; payload]).unwrap();
+            term.flush().unwrap();
+        }
         let mut count = 0usize;
         let stall2 = stall.clone();
+        // image mode: 0 = the image is shown and delivered, 1 = the terminal stalls (payload stranded), the image stays
+        // as it is while frames pile up, 2 = the frame rendered right after the drop no longer shows it
+        let mut phase = 0usize;
+        let mut since = 0usize;
         let r: Result<usize, Error> = term.run_render(|term, _event, mut surf| {
             count += 1;
             // every frame differs from the previous one
@@ -106,6 +113,32 @@ fn session(seed: u64) -> serde_json::Value {
                 if let Some(c) = surf.get_mut(Position::new(count % 3, i)) {
                     *c = Cell::new_char(Face::default(), ch);
                 }
+            }
+            if image {
+                since += 1;
+                if phase == 0 && since >= 4 && term.frames_pending() == 0 {
+                    phase = 1;
+                    since = 0;
+                    stall2.store(true, Ordering::SeqCst);
+                    term.write_all(&vec![0xA5u8; payload]).unwrap();
+                    term.flush().unwrap();
+                } else if phase == 1 && term.frames_pending() > 32 {
+                    // run_render drops the pending frames right after this call
+                    phase = 2;
+                    since = 0;
+                }
+                if phase < 2 {
+                    if let Some(c) = surf.get_mut(Position::new(5, 20)) {
+                        *c = Cell::new_image(img.clone());
+                    }
+                }
+                if phase == 2 && since == 3 {
+                    stall2.store(false, Ordering::SeqCst);
+                }
+                if (phase == 2 && since > 3 && term.frames_pending() == 0) || count > 6000 {
+                    return Ok(TerminalAction::Quit(count));
+                }
+                return Ok(TerminalAction::Sleep(Duration::from_millis(if phase == 1 { 0 } else { 2 })));
             }
             if count == frames {
                 stall2.store(false, Ordering::SeqCst);
@@ -139,19 +172,50 @@ fn session(seed: u64) -> serde_json::Value {
         }
     }
     let got_payload = bytes.iter().filter(|b| **b == 0xA5).count();
+    // kitty graphics commands in the order the terminal received them: [action, image id, placement id] with
+    // action 1 = put (a=p), 2 = delete (a=d); ids are reduced modulo 10^6 (only equality matters)
+    let mut kitty: Vec<Vec<u64>> = Vec::new();
+    let mut i = 0;
+    while i + 3 <= bytes.len() {
+        if &bytes[i..i + 3] == b"\x1b_G" {
+            let end = (i..bytes.len()).find(|j| bytes[*j] == b';' || bytes[*j] == 0x1b && *j > i).unwrap_or(bytes.len());
+            let ctl = String::from_utf8_lossy(&bytes[i + 3..end]).to_string();
+            let mut a = 0u64;
+            let (mut im, mut pl) = (0u64, 0u64);
+            for kv in ctl.split(',') {
+                let mut it = kv.splitn(2, '=');
+                match (it.next(), it.next()) {
+                    (Some("a"), Some("p")) | (Some("a"), Some("T")) => a = 1,
+                    (Some("a"), Some("d")) => a = 2,
+                    (Some("i"), Some(v)) => im = v.parse::<u64>().unwrap_or(0) % 1_000_000 + 1,
+                    (Some("p"), Some(v)) => pl = v.parse::<u64>().unwrap_or(0) % 1_000_000 + 1,
+                    _ => {}
+                }
+            }
+            if a != 0 {
+                kitty.push(vec![a, im, pl]);
+            }
+            i = end;
+        } else {
+            i += 1;
+        }
+    }
     match res {
-        Ok(n) => json!({"seed": seed, "frames": n, "markers": markers, "drops": drops.load(Ordering::SeqCst), "payload": payload, "payload_seen": got_payload, "panic": ""}),
-        Err(m) => json!({"seed": seed, "frames": 0, "markers": markers, "drops": drops.load(Ordering::SeqCst), "payload": payload, "payload_seen": got_payload, "panic": m}),
+        Ok(n) => json!({"seed": seed, "frames": n, "markers": markers, "drops": drops.load(Ordering::SeqCst), "payload": payload, "payload_seen": got_payload, "image": image, "kitty": kitty, "panic": ""}),
+        Err(m) => json!({"seed": seed, "frames": 0, "markers": markers, "drops": drops.load(Ordering::SeqCst), "payload": payload, "payload_seen": got_payload, "image": image, "kitty": kitty, "panic": m}),
     }
 }
 
 /// c16-render: stdin records {id, seed}; one output record per session
 pub fn render() {
+    // the image sessions need an image protocol: the kitty handler is selected through the library's environment switch
+    // (read once per process)
+    unsafe { std::env::set_var("SURFNTERM", "image=kitty") };
     let mut out = Out::new();
     for v in stdin_records() {
         let id = v["id"].as_u64().unwrap();
         let seed = v["seed"].as_u64().unwrap();
-        let mut r = session(seed);
+        let mut r = session(seed, v["image"].as_bool().unwrap_or(false));
         r["id"] = json!(id);
         out.rec(&r);
     }
